@@ -361,6 +361,12 @@ def tasks(tier, seed):
         z = named[(j + seed) % len(named)]
         for aw in (AWARE if not quick else [AWARE[(j + seed + 1) % 3]]):
             add("absolute-named:%s:%s>%s:%s" % (z, A, B, aw), "h_absolute", {"A": A, "B": B, "aware": aw, "named": z})
+    # TO_TIMEZONE equal to TIMEZONE while the phrase names another zone: the conversion back must still happen
+    for j, z0 in enumerate(["UTC", "+0530", "PST"] if not quick else [["UTC", "+0530", "PST"][seed % 3]]):
+        z = named[(j + seed) % len(named)]
+        for aw in (AWARE if not quick else [AWARE[(j + seed) % 3]]):
+            add("relative-named:%s:%s>%s:%s" % (z, z0, z0, aw), "h_relative", {"A": z0, "B": z0, "aware": aw, "named": z})
+            add("absolute-named:%s:%s>%s:%s" % (z, z0, z0, aw), "h_absolute", {"A": z0, "B": z0, "aware": aw, "named": z})
     for j, (A, B) in enumerate(npairs):
         if A == "local":
             continue   # naive reference + zone in the phrase + no TIMEZONE: the reference's zone is not determined by the property
